@@ -261,12 +261,21 @@ def check(ctx):
         return
     pc_fn = cls.lookup("_compute_population_correction")
     qparam_ok = mq.group(1) in pc_fn.params
-    call_pc = [c for c in util.method_calls(f.node, "_compute_population_correction")]
     arg_ok = False
-    if call_pc and qparam_ok:
-        i = pc_fn.params.index(mq.group(1)) - 1
-        a = call_pc[0].args[i] if i < len(call_pc[0].args) else None
-        arg_ok = isinstance(a, ast.Name) and a.id == "correction_quantile"
+    if qparam_ok:
+        # summarise again without inlining the helper: the argument bound to that parameter must be the level of R2
+        b2 = ctx.builder(inline=lambda c, call, callee: callee.name in ("get_unit_prediction_interval_bounds", "_compute_conf_frac"))
+        s2 = b2.summarize(f, self_cls=cls)
+        calls2 = [x for _, _, t_, _ in s2.assigns for x in ir.walk(t_) if x[0] == "call" and x[1] == ("attr", SELF, "_compute_population_correction")]
+        if calls2:
+            bound = ir.bind_args(pc_fn, calls2[0][2], calls2[0][3], method=True) or {}
+            a = bound.get(mq.group(1))
+            want_q = symexpr.Normalizer().norm(symexpr.parse("alpha * (1 + 1 / ncal)"))
+            if a is not None:
+                r2 = s2.ret()
+                ncal2 = ("sub", ("attr", r2[2][2], "shape"), ("const", 0)) if r2[0] == "call" and len(r2[2]) == 3 else None
+                nz = symexpr.Normalizer(leaf=lambda x: "ncal" if x == ncal2 else (x[1] if x[0] == "param" else None))
+                arg_ok = nz.norm(a) == want_q
     ctx.ob("C04.R3.level", f"{f.qualname}|weighted correction uses the same quantile level", arg_ok, f.where(),
            "the weighted correction is computed at the same level alpha(1 + 1/n_cal)" if arg_ok else "the weighted correction is computed at a different level")
     tbl = fr[1][1]
